@@ -14,12 +14,29 @@ import Rl4co.Props.C01.Pctsp
 namespace Rl4co.Pctsp
 open Rl4co.Spec.Pctsp Rl4co.Prize
 
+/-- the single-column test is `length = 1` (extracted operator `==` and constant `1`) -/
+theorem rewardSpecial_iff (as : List Nat) : rewardSpecial as = decide (as.length = 1) := by
+  simp [rewardSpecial, Params.pctspRewardSpecialCmp, Params.pctspRewardSpecialWidth, Cmp.evalNat]
+
+/-- `penalty[..., 1:].sum(-1)` is the sum of all customers' penalties (extracted slice bounds `1:`) -/
+theorem totalPenalty_eq (i : Inst) : totalPenalty i = sumTo i.n (fun k => i.pen (k + 1)) := by
+  simp only [totalPenalty, Params.pctspPenaltySlice, Nat.add_sub_cancel, Nat.sub_zero]
+  apply sumTo_congr
+  intro k _
+  simp [padded]
+
+theorem reward_eq (i : Inst) (as : List Nat) :
+    reward i as = if as.length = 1 then 0
+      else gatherSum i.pen as - (rollLen i.D (0 :: as) + sumTo i.n (fun k => i.pen (k + 1))) := by
+  simp [reward, rewardSpecial_iff, totalPenalty_eq]
+
 /-- general form: for every action list with entries in range and no repeated customer that is not a
 single column, the reward is minus the objective (depot visits anywhere in the list allowed) -/
 theorem reward_eq_objective_of_once (i : Inst) (as : List Nat)
     (hr : ∀ a ∈ as, a ≤ i.n) (ho : ∀ j, 1 ≤ j → j ≤ i.n → as.count j ≤ 1) (hl : as.length ≠ 1) :
     reward i as = - objective i as := by
-  simp only [reward, hl, if_false, objective]
+  rw [reward_eq]
+  simp only [hl, if_false, objective]
   rw [gatherSum_eq_sumTo i.n i.pen as hr ho, rollLen_eq_closedLen]
   rw [sumTo_split i.n i.pen (fun j => j ∈ as)]
   simp only [closedLen]
